@@ -41,6 +41,31 @@ def replay_file(prop, path, quiet=False) -> int:
     with open(path) as f:
         record = json.load(f)
     nt = import_nutree()
+    if record.get("engine") in ("fs", "prng"):
+        mod = __import__({"fs": "simkit.fsim", "prng": "simkit.prng"}[record["engine"]],
+                         fromlist=["replay_record"])
+        hits = [h for h in mod.replay_record(record, prop, nt) if h[0] == prop]
+        want = tuple(record["signature"]) if record.get("signature") else None
+        if want:
+            hits = [h for h in hits if (h[0], h[1], h[2]) == want] or hits
+        if hits:
+            h = hits[0]
+            print(f"REPRODUCED {h[0]}/{h[1]}/{h[2]}: {h[3][:500]}")
+            print(f"VIOLATION property={prop} replay={path}")
+            return 1
+        print(f"not reproduced: {path}")
+        return 0
+    if record.get("engine") == "peer":
+        from .peer import run_case
+
+        hits = [v for v in run_case(record, nt) if v.prop == prop]
+        if hits:
+            v = hits[0]
+            print(f"REPRODUCED {v.prop}/{v.check}/{v.trigger}: {v.detail[:500]}")
+            print(f"VIOLATION property={prop} replay={path}")
+            return 1
+        print(f"not reproduced: {path}")
+        return 0
     log, _w = replay(record, nt=nt)
     want = tuple(record["signature"]) if record.get("signature") else None
     hits = [(i, v) for i, v in log.violations if v.prop == prop]
@@ -134,7 +159,7 @@ def run(prop: str, spec: dict, argv) -> int:
 
         nt = import_nutree()
         avoid_rx = [re.compile(x) for x in avoid]
-        if recipe is not None and recipe[0] == "enum":
+        if recipe is not None and not isinstance(recipe, dict) and recipe[0] == "enum":
             from .enum13 import base_history, with_fault
 
             record, _c, _s, _v = base_history(seed, recipe[1], tier, avoid_rx, nt)
@@ -148,10 +173,12 @@ def run(prop: str, spec: dict, argv) -> int:
                             engine=spec.get("engine", "history"),
                             cfg_overrides=spec.get("cfg_overrides"))
             record = r.record
-        rec_min = record if args.no_minimise else minimise(record, sig, nt=nt)
+        no_min = args.no_minimise or record.get("engine") in ("peer", "fs", "prng")
+        rec_min = record if no_min else minimise(record, sig, nt=nt)
         replay_path = CM.write_replay(prop, rec_min, sig, detail)
         ok, out = CM.replay_in_fresh_interpreter(prop, replay_path)
-        minim_info = {"ops_before": len(record["ops"]), "ops_after": len(rec_min["ops"]),
+        minim_info = {"ops_before": len(record.get("ops", ())),
+                      "ops_after": len(rec_min.get("ops", ())),
                       "reproduced_in_fresh_interpreter": ok}
         if not ok:
             # minimiser mismatch would be a harness defect: report the full record
